@@ -1,5 +1,6 @@
 pub mod cli;
 pub mod doc;
+pub mod layout;
 pub mod marker;
 pub mod pair;
 pub mod tag;
